@@ -90,6 +90,8 @@ class Executor(ExprMixin, ContainerMixin, CallMixin, StmtMixin, ObjectMixin):
         return re.sub(r"\bL(\d+)\b", lambda m: f"L+{int(m.group(1)) - self.line0}", name)
 
     def resolve_global_function(self, name: str):
+        if self.module == "lemma" and f"lemma.{name}" in self.src.functions:
+            return f"lemma.{name}"
         for m in (self.module, "common", "node", "tree"):
             q = f"nutree.{m}.{name}"
             if q in self.src.functions:
@@ -188,6 +190,9 @@ class Executor(ExprMixin, ContainerMixin, CallMixin, StmtMixin, ObjectMixin):
         self.T_entry = x0.T
         for rname, rfn in c.requires_:
             p.assume(rfn(x0))
+        # verified lemmas this function relies on: their universally closed statements
+        for lq in getattr(c, "uses_lemmas", ()):
+            p.assume(lemma_statement(self, lq, h0, x0.T))
         if self.contract.is_generator:
             p.ghost["yielded"] = L.Empty
         self.on_entry(p)
@@ -304,6 +309,24 @@ class Executor(ExprMixin, ContainerMixin, CallMixin, StmtMixin, ObjectMixin):
 
     def on_structure_read(self, p, site, bound):
         pass
+
+
+def lemma_statement(ex, lq: str, h, T):
+    """forall params. requires -> ensures  of a lemma contract, over heap h and tree T.  Sound to
+    assume because the lemma itself is verified (its obligations are in the same ledger)."""
+    lc = REGISTRY[lq]
+    svs = {}
+    consts = []
+    for n, alts in lc.params.items():
+        z = L.fresh(f"{n}_lm", L.Ref)
+        consts.append(z)
+        svs[n] = RefV(z, "Node")
+    a = Args(svs)
+    x = Ctx(ex, h, h, a, res=NoneV, family=ex.family, T=T)
+    pre = And(*[fn(x) for _n, fn in lc.requires_]) if lc.requires_ else z3.BoolVal(True)
+    post = And(*[e.fn(x) for e in lc.ensures_])
+    pats = lc.lemma_patterns(x) if getattr(lc, "lemma_patterns", None) else None
+    return ForAll(consts, Implies(pre, post), patterns=pats) if pats else ForAll(consts, Implies(pre, post))
 
 
 def n_variants(qual: str) -> list:
